@@ -427,19 +427,19 @@ Proof. exact search_resets_defs_first_sound. Qed.
 Theorem C02_thread_manager_init : forall st,
   run_tm tm_init_running [] tk_tm_init st
   = Some (mkTM false false true false (tm_sets st) (tm_joins st) []).
-Proof. intros st. exact (tm_init_sound tk_tm_init st eq_refl). Qed.
+Proof. intros [r e c a s j rd]. reflexivity. Qed.
 
 Theorem C02_thread_manager_start : forall st,
   run_tm tm_start_running [] tk_tm_start st = tm_model_start st.
-Proof. intros st. exact (tm_start_sound tk_tm_start st eq_refl). Qed.
+Proof. intros [r e c a s j rd]. destruct c, a; reflexivity. Qed.
 
+(* proved by evaluating the interpreter on the extracted tree, for every
+   state: the statement does not depend on how stop() lays out its test
+   (`if running: ..` or `if not running: return`) *)
 Theorem C02_thread_manager_stop : forall st,
   run_tm tm_stop_running (tm_stop_guards tm_stop_test) tk_tm_stop st
   = tm_model_stop st.
-Proof.
-  intros st. apply (tm_stop_sound tk_tm_stop tm_stop_test st eq_refl).
-  intros b. reflexivity.
-Qed.
+Proof. intros [r e c a s j rd]. destruct r, a; reflexivity. Qed.
 
 (* _run_mp calls results_thread.stop() before the purge and again in its
    `finally`: the second call is a no-op; over a manager's life there is one
